@@ -55,7 +55,7 @@ type DKGActor struct {
 func (a *DKGActor) OnBlock(e *Env, blk *world.BlockRecord) {}
 
 var dkgDeviations = []string{"r1_bad_a0sig", "r1_wrong_len_commits", "r1_other_member_id", "r2_corrupt_share", "r2_wrong_count", "r2_share_for_other",
-	"r3_false_complaint", "r3_bad_keysym", "r3_bad_confirm_sig", "dup_r1", "dup_r2", "r3_complain_self"}
+	"r3_false_complaint", "r3_bad_keysym", "r3_bad_confirm_sig", "dup_r1", "dup_r2", "r3_complain_self", "dup_r3"}
 
 func (a *DKGActor) state(e *Env, gid uint64, m *TSSMember, mid uint64, size uint64) *dkgState {
 	if a.States == nil {
@@ -335,6 +335,12 @@ func (a *DKGActor) round3(e *Env, m *TSSMember, st *dkgState, g tsstypes.Group) 
 		kind = st.Deviation
 	}
 	e.Submit(m.Acc, "dkg_confirm", &dkgMeta{Member: m, State: st, Round: 3, Kind: kind, Confirm: true, Honest: honest}, tsstypes.NewMsgConfirm(g.ID, dkg.MemberID, sig, addr))
+	if st.Deviation == "dup_r3" {
+		// the same (valid) confirmation once more, possibly several times: a member acts at most once in round 3
+		for i := 0; i < 1+e.Ch.Intn("dkg.dup_r3.n", 3); i++ {
+			e.Submit(m.Acc, "dkg_confirm", &dkgMeta{Member: m, State: st, Round: 3, Kind: "dup_r3", Confirm: true}, tsstypes.NewMsgConfirm(g.ID, dkg.MemberID, sig, addr))
+		}
+	}
 }
 
 // ---------------------------------------------------------------------------------------------
